@@ -151,17 +151,34 @@ func (d *decoder) payload(e *npayload.Extensible) (*consensus.Payload, []byte, e
 	return p, raw, nil
 }
 
-// blockOfCommit finds which known header of (h, v) the signature signs.
-func (d *decoder) blockOfCommit(from int, h uint32, v byte, sig []byte) string {
+// blockOfCommit finds which known header of height h the signature signs and returns the view
+// the header belongs to and the block's name. A commit relayed inside a RecoveryMessage is
+// re-labelled with the recovery message's view by recovery_message.go GetCommits; what the
+// validator really signed is what matters for the model, so the view is taken from the header.
+func (d *decoder) blockOfCommit(from int, h uint32, v byte, sig []byte) (byte, string) {
 	if from < 0 || from >= len(d.cl.pubs) {
-		return "b?"
+		return v, "b?"
 	}
-	for _, pr := range d.props[hvKey{h, v}] {
-		if pr.hdr != nil && d.cl.pubs[from].VerifyHashable(sig, magic, pr.hdr) {
-			return d.nm.b(pr.hdr.Hash())
+	try := func(vv byte) (string, bool) {
+		for _, pr := range d.props[hvKey{h, vv}] {
+			if pr.hdr != nil && d.cl.pubs[from].VerifyHashable(sig, magic, pr.hdr) {
+				return d.nm.b(pr.hdr.Hash()), true
+			}
+		}
+		return "", false
+	}
+	if b, ok := try(v); ok {
+		return v, b
+	}
+	for vv := 0; vv < 256; vv++ {
+		if _, ok := d.props[hvKey{h, byte(vv)}]; !ok || byte(vv) == v {
+			continue
+		}
+		if b, ok := try(byte(vv)); ok {
+			return byte(vv), b
 		}
 	}
-	return "b?"
+	return v, "b?"
 }
 
 // decode turns the payload broadcast by node `sender` (nil when unknown) into a msg.
@@ -182,7 +199,8 @@ func (d *decoder) decode(e *npayload.Extensible, sender *node) (*msg, error) {
 	case dbft.PrepareResponseType:
 		m.desc = "PS " + head + " " + d.nm.p(p.GetPrepareResponse().PreparationHash())
 	case dbft.CommitType:
-		m.desc = "CM " + head + " " + d.blockOfCommit(m.from, m.h, m.v, p.GetCommit().Signature())
+		_, b := d.blockOfCommit(m.from, m.h, m.v, p.GetCommit().Signature())
+		m.desc = "CM " + head + " " + b
 	case dbft.ChangeViewType:
 		cv := p.GetChangeView()
 		m.desc = fmt.Sprintf("CV %s %d", head, cv.NewViewNumber())
@@ -204,16 +222,25 @@ func (d *decoder) decode(e *npayload.Extensible, sender *node) (*msg, error) {
 			rp := req.(*consensus.Payload)
 			parts = append(parts, fmt.Sprintf("PR %d %d %d %s", rp.ValidatorIndex(), rp.Height(), rp.ViewNumber(), d.nm.p(rp.Hash())))
 		}
-		for _, ps := range rm.GetPrepareResponses(p, pubs) {
-			if int(ps.ValidatorIndex()) == pi {
-				continue // the primary's compact entry stands for its request
+		// preparations: with the request on board the decoded message has no preparation hash
+		// yet (consensus.go eventLoop fills it from the request before dBFT sees it), so the
+		// compact preparation entries are read from the wire form here.
+		prepHash := rm.PreparationHash()
+		if req := rm.GetPrepareRequest(p, pubs, uint16(pi)); req != nil {
+			hh := req.Hash()
+			prepHash = &hh
+		}
+		if prepHash != nil {
+			for _, vi := range prepIndices(e.Data, d.cl.sr) {
+				if vi == pi {
+					continue // the primary's compact entry stands for its request
+				}
+				parts = append(parts, fmt.Sprintf("PS %d %d %d %s", vi, m.h, m.v, d.nm.p(*prepHash)))
 			}
-			parts = append(parts, fmt.Sprintf("PS %d %d %d %s", ps.ValidatorIndex(), ps.Height(), ps.ViewNumber(), d.nm.p(ps.GetPrepareResponse().PreparationHash())))
 		}
 		for _, cm := range rm.GetCommits(p, pubs) {
-			// a commit inside a recovery message keeps the view it was made in
-			cv := cm.ViewNumber()
-			parts = append(parts, fmt.Sprintf("CM %d %d %d %s", cm.ValidatorIndex(), cm.Height(), cv, d.blockOfCommit(int(cm.ValidatorIndex()), cm.Height(), cv, cm.GetCommit().Signature())))
+			cv, b := d.blockOfCommit(int(cm.ValidatorIndex()), cm.Height(), cm.ViewNumber(), cm.GetCommit().Signature())
+			parts = append(parts, fmt.Sprintf("CM %d %d %d %s", cm.ValidatorIndex(), cm.Height(), cv, b))
 		}
 		m.desc = fmt.Sprintf("RM %s %d", head, len(parts))
 		if len(parts) > 0 {
@@ -258,6 +285,57 @@ func (d *decoder) request(p *consensus.Payload, data []byte, sender *node) strin
 		return d.nm.p(ph) + " b?"
 	}
 	return d.nm.p(ph) + " " + d.nm.b(pr.hdr.Hash())
+}
+
+// prepIndices reads the validator indices of the compact preparation entries of a
+// RecoveryMessage from its wire form (recovery_message.go EncodeBinary).
+func prepIndices(data []byte, sr bool) []int {
+	r := io.NewBinReaderFromBuf(data)
+	r.ReadB()     // type
+	r.ReadU32LE() // block index
+	r.ReadB()     // validator
+	r.ReadB()     // view
+	ncv := r.ReadVarUint()
+	for i := uint64(0); i < ncv && r.Err == nil; i++ {
+		r.ReadB()
+		r.ReadB()
+		r.ReadU64LE()
+		r.ReadVarBytes(1024)
+	}
+	if r.ReadBool() {
+		r.ReadB()
+		r.ReadU32LE()
+		r.ReadB()
+		r.ReadB()
+		r.ReadU32LE() // version
+		var h util.Uint256
+		r.ReadBytes(h[:])
+		r.ReadU64LE()
+		r.ReadU64LE()
+		n := r.ReadVarUint()
+		for i := uint64(0); i < n && r.Err == nil; i++ {
+			r.ReadBytes(h[:])
+		}
+		if sr {
+			r.ReadBytes(h[:])
+		}
+	} else {
+		l := r.ReadVarUint()
+		if l == 32 {
+			var h util.Uint256
+			r.ReadBytes(h[:])
+		}
+	}
+	np := r.ReadVarUint()
+	var res []int
+	for i := uint64(0); i < np && r.Err == nil; i++ {
+		res = append(res, int(r.ReadB()))
+		r.ReadVarBytes(1024)
+	}
+	if r.Err != nil {
+		return nil
+	}
+	return res
 }
 
 var _ = keys.PublicKeys{}
